@@ -692,8 +692,9 @@ func (in *Interp) mutexUnlock(fr *Frame, p *Value, read bool) {
 	if p == nil {
 		in.rtPanic(fr, "invalid memory address or nil pointer dereference (nil mutex)")
 	}
-	s := in.sched
-	s.yield(fr, "Unlock")
+	_ = in.sched
+	// no scheduling point before a release: a switch here commutes with a switch before the
+	// previous visible operation of this goroutine (reduction; acquire-like operations keep theirs)
 	m := in.mutex(p)
 	if read {
 		if m.readers == 0 {
@@ -1016,3 +1017,19 @@ func init() {
 }
 
 var errorIface = types.Universe.Lookup("error").Type().Underlying().(*types.Interface)
+
+func init() {
+	// math/rand: an environment decision among representative values
+	rf := func(in *Interp, fr *Frame, fn *ssa.Function, a []Value) Value {
+		vals := []float64{0, 0.5, 0.999}
+		if in.cfg.RandFixed {
+			return 0.5
+		}
+		return vals[in.path.choose(in, DEnv, len(vals), fr)]
+	}
+	reg("math/rand.Float64", rf)
+	reg("math/rand/v2.Float64", rf)
+	reg("math/rand.Int63", func(in *Interp, fr *Frame, fn *ssa.Function, a []Value) Value { return cI(in, 4) })
+	reg("math/rand.Intn", func(in *Interp, fr *Frame, fn *ssa.Function, a []Value) Value { return cI(in, 0) })
+	reg("math/rand.Int", func(in *Interp, fr *Frame, fn *ssa.Function, a []Value) Value { return cI(in, 4) })
+}
